@@ -4,6 +4,9 @@
 #include "common.hpp"
 #include "reserved.hpp"
 #include <ipr/impl>
+#include <deque>
+#include <memory>
+#include <cstring>
 #include <unordered_map>
 #include <algorithm>
 
@@ -48,6 +51,25 @@ struct Family {
          if (util::rep(single[i]) == 0) { ctx().viol(std::string(tag) + ":empty-singleton", "basic name maps to the empty set: " + narrow(names[i])); ok = false; }
          for (std::size_t j = 0; j < i; ++j)
             if (single[i] == single[j]) { ctx().viol(std::string(tag) + ":not-distinct", "two basic names map to the same set: " + narrow(names[i]) + " / " + narrow(names[j])); ok = false; }
+      }
+      // the same names carried by String nodes that this Lexicon did not intern (a free-standing node, another Lexicon's word)
+      // and by an exact-size unterminated buffer: the mapping goes by the spelling
+      {
+         static std::deque<impl::String> free_standing;
+         impl::Lexicon other;
+         for (std::size_t i = 0; i < N; ++i) {
+            free_standing.emplace_back(names[i]);
+            std::unique_ptr<char8_t[]> exact(new char8_t[names[i].size()]); std::memcpy(exact.get(), names[i].data(), names[i].size());
+            const String* routes[] = { &free_standing.back(), &other.get_string(names[i]), &lex.get_string(util::word_view(exact.get(), names[i].size())) };
+            for (auto sp : routes) {
+               ctx().count(std::string(tag) + "_names_through_other_string_nodes");
+               try {
+                  Basic b { lex.get_logogram(*sp) };
+                  Set got; if constexpr (std::is_same_v<Set, Specifiers>) got = L.specifiers(b); else got = L.qualifiers(b);
+                  if (!(got == single[i])) { ctx().viol(std::string(tag) + ":other-string-node-maps-differently", "a basic name carried by a String node that the Lexicon did not intern maps to another set: " + narrow(names[i])); ok = false; }
+               } catch (...) { ctx().viol(std::string(tag) + ":basic-name-refused:other-string-node", "basic name refused when carried by a String node that the Lexicon did not intern: " + narrow(names[i])); ok = false; }
+            }
+         }
       }
       for (std::size_t i = 0; i < N; ++i) {
          bool k = true;
